@@ -62,6 +62,8 @@ func checkC09(w *World, r *Report) {
 	derefBuiltinRule(w, r, "C09.deref-builtin")
 	monotoneAtomLint(w, r, "C09.lisp-monotone")
 	identityObjectsRule(w, r, "C09.one-object", "Atom")
+	atomConstructorRule(w, r, e, "C09.constructor")
+	releaseOnPanicRule(w, r, e, "C09.release-on-panic", w.pkgFuncs("lib/concurrent"))
 	// "swap! ... installs and returns the result": swap!, reset! and deref reach programs through the binder's
 	// adapter closures, which must hand back what the operation returned
 	r.include("C09.builtin-", "C20.", "what swap!, reset! and deref return to the program is what the operation returned: a completed update is not reported as a failure", checkC20, func(rule string) bool {
@@ -704,7 +706,7 @@ func checkC10(w *World, r *Report) {
 	// events that make future-done? true: a store Done = true, or a call of a function of the package that
 	// performs such a store on every path to its return
 	var doneStores []ssa.Instruction
-	var sends []*ssa.Send
+	var sends []ssa.Instruction // sends of the outcome, and calls of package functions that send it
 	isDoneStore := func(in ssa.Instruction) bool {
 		x, ok := in.(*ssa.Store)
 		if !ok {
@@ -741,6 +743,53 @@ func checkC10(w *World, r *Report) {
 		}
 		return false
 	}
+	// the delivery may be made by a function of the package the body calls: such a call is a delivery event; it
+	// delivers for certain when no path through the callee avoids every send
+	bodyHelpers := map[*ssa.Function]bool{}
+	for _, h := range w.withPkgHelpers(body) {
+		if h != body {
+			bodyHelpers[h] = true
+		}
+	}
+	var sendsOf func(fn *ssa.Function, depth int) (n int, always bool)
+	sendsOf = func(fn *ssa.Function, depth int) (int, bool) {
+		if fn == nil || depth > 3 || len(fn.Blocks) == 0 {
+			return 0, false
+		}
+		n := 0
+		sendBlocks := map[*ssa.BasicBlock]bool{}
+		for _, b := range fn.Blocks {
+			for _, in := range b.Instrs {
+				switch x := in.(type) {
+				case *ssa.Send:
+					if _, ok := outcomeChanField(x.Chan); ok {
+						n++
+						sendBlocks[b] = true
+					}
+				case *ssa.Call:
+					if h := x.Call.StaticCallee(); h != nil && bodyHelpers[h] && h != fn {
+						k, alw := sendsOf(h, depth+1)
+						n += k
+						if alw {
+							sendBlocks[b] = true
+						}
+					}
+				}
+			}
+		}
+		always := n > 0
+		for _, b := range fn.Blocks {
+			if len(b.Instrs) == 0 || b == fn.Recover {
+				continue
+			}
+			if _, isRet := b.Instrs[len(b.Instrs)-1].(*ssa.Return); isRet && !sendBlocks[fn.Blocks[0]] && !sendBlocks[b] && reachesAvoiding(fn.Blocks[0], b, sendBlocks) {
+				always = false
+			}
+		}
+		return n, always
+	}
+	nsends := 0
+	alwaysSends := map[ssa.Instruction]bool{}
 	for _, b := range body.Blocks {
 		for _, in := range b.Instrs {
 			switch x := in.(type) {
@@ -751,13 +800,21 @@ func checkC10(w *World, r *Report) {
 			case *ssa.Call:
 				if setsDone(x.Call.StaticCallee()) {
 					doneStores = append(doneStores, x)
+				} else if h := x.Call.StaticCallee(); h != nil && bodyHelpers[h] {
+					if k, alw := sendsOf(h, 0); k > 0 {
+						sends = append(sends, x)
+						nsends += k
+						alwaysSends[x] = alw
+					}
 				}
 			case *ssa.Send:
 				sends = append(sends, x)
+				nsends++
+				alwaysSends[x] = true
 			}
 		}
 	}
-	r.floor("C10.done-before-deliver", "sends of the outcome in the body goroutine", len(sends), 2)
+	r.floor("C10.done-before-deliver", "sends of the outcome in the body goroutine", nsends, 2)
 	for _, s := range sends {
 		ok := false
 		for _, d := range doneStores {
@@ -775,7 +832,13 @@ func checkC10(w *World, r *Report) {
 				ok = true
 			}
 		}
-		r.check(ok, "C10.done-before-deliver", body, "send "+describeVal(e, s.Chan, 0), s.Pos(), "Done = true stored on every path before the outcome is sent", "the outcome is delivered before (or without) Done being set: future-done? can be false after a deref returned")
+		what := ""
+		if sd, isSend := s.(*ssa.Send); isSend {
+			what = "send " + describeVal(e, sd.Chan, 0)
+		} else {
+			what = "delivery through " + describeCallInstr(e, s.(ssa.CallInstruction))
+		}
+		r.check(ok, "C10.done-before-deliver", body, what, s.Pos(), "Done = true stored on every path before the outcome is sent", "the outcome is delivered before (or without) Done being set: future-done? can be false after a deref returned")
 	}
 
 	// deliver: every way out of the body after the function was applied has sent the outcome
@@ -793,7 +856,9 @@ func checkC10(w *World, r *Report) {
 		// no path from the application to this exit avoids every send
 		sendBlocks := map[*ssa.BasicBlock]bool{}
 		for _, s := range sends {
-			sendBlocks[s.Block()] = true
+			if alwaysSends[s] {
+				sendBlocks[s.Block()] = true
+			}
 		}
 		sent := sendBlocks[applies[0].Block()] || sendBlocks[b] || !reachesAvoiding(applies[0].Block(), b, sendBlocks)
 		r.check(sent, "C10.deliver", body, "exit of the body goroutine", ret.Pos(), "outcome sent on every path to this exit", "the body can finish without delivering its outcome: every deref then blocks until its own context ends")
@@ -803,6 +868,10 @@ func checkC10(w *World, r *Report) {
 	doneFlagRule(w, r, e, "C10.done-flag")
 	cancelFlagRule(w, r, "C10.cancel-flag")
 	statusBuiltinRule(w, r, "C10.status-builtins")
+	// deref, future-done?, future-cancelled? and future-cancel are called through the binder's adapters from any
+	// number of threads at once: an adapter that writes state it captured at registration hands one caller the
+	// arguments (the future) of another, and races
+	capturedStateRule(w, r, e, "C10.adapter-state")
 	identityObjectsRule(w, r, "C10.one-object", "Future")
 	derefContextRule(w, r, "C10.deref-context")
 	r.rule("C10.body-context", "every evaluation the library starts runs under the context its function was given or a child of it - never under a fresh one, never under one captured from an enclosing activation in its place: the body of a future runs under the very context that future-cancel cancels, and a deref reached from any form (a finally body included) waits under the context of the evaluation that contains it (shared with C07.derive)")
@@ -849,6 +918,44 @@ func checkC10(w *World, r *Report) {
 					for _, in2 := range bb.Instrs {
 						if sd, ok := in2.(*ssa.Send); ok && e.keyOf(sd.Chan).String() == chanKey && recvVal != nil && sd.X == recvVal {
 							found = true
+						}
+					}
+				}
+				// ... or handed to a function of the package that sends its parameter back on that channel
+				if !found && recvVal != nil {
+					for _, bb := range deref.Blocks {
+						for _, in2 := range bb.Instrs {
+							c2, ok := in2.(*ssa.Call)
+							if !ok {
+								continue
+							}
+							g := c2.Call.StaticCallee()
+							if g == nil || g.Pkg != deref.Pkg || len(g.Blocks) == 0 {
+								continue
+							}
+							for ai, a := range c2.Call.Args {
+								if a != recvVal || ai >= len(g.Params) {
+									continue
+								}
+								for _, gb := range g.Blocks {
+									for _, gin := range gb.Instrs {
+										sd, ok := gin.(*ssa.Send)
+										if !ok || sd.X != ssa.Value(g.Params[ai]) {
+											continue
+										}
+										k := e.keyOf(sd.Chan)
+										for pj, gp := range g.Params {
+											if k.Root == ssa.Value(gp) && pj < len(c2.Call.Args) {
+												nk := e.keyOf(c2.Call.Args[pj])
+												nk.Path += k.Path
+												if nk.String() == chanKey {
+													found = true
+												}
+											}
+										}
+									}
+								}
+							}
 						}
 					}
 				}
@@ -1090,7 +1197,9 @@ func checkC11(w *World, r *Report) {
 	// a future bound to a global is read by any number of evaluations: each must get the outcome it gets alone
 	r.include("C11.future-", "C10.", "an evaluation that only reads a shared global future returns what it returns alone: every reader gets the one outcome", checkC10, func(rule string) bool {
 		switch rule {
-		case "C10.redeposit", "C10.deref-waits", "C10.single-outcome", "C10.done-before-deliver":
+		case "C10.redeposit", "C10.deref-waits", "C10.single-outcome", "C10.done-before-deliver", "C10.ctx":
+			// C10.ctx: the body of a future is stopped by its creator's context and by future-cancel only, so an
+			// evaluation started by a program does not depend on which other evaluation happens to finish first
 			return true
 		}
 		return false
@@ -1109,6 +1218,11 @@ func checkC11(w *World, r *Report) {
 	// the finished value
 	r.include("C11.definition-", "C12.", "defmacro binds its name exactly once, to the marked closure: no other evaluation finds the name bound to an unfinished value", checkC12, func(rule string) bool {
 		return rule == "C12.defmacro-once"
+	})
+	// "every global definition is seen either entirely or not at all": the scope's read-modify-write entry point
+	// (Update) is one critical section, so two evaluations updating one global never lose an update
+	r.include("C11.update-", "C20.", "Update reads, computes and stores under one write lock of the scope: concurrent updates of one global are serialised", checkC20, func(rule string) bool {
+		return rule == "C20.registry-atomic"
 	})
 	r.rule("C11.no-reentry", "no function of package env acquires a scope's mutex while it already holds it, or calls with the lock held a function that locks the same scope (sync.RWMutex is not re-entrant even for readers: concurrent evaluations on the shared environment would block each other forever)")
 	nre := reentryRule(w, r, e, "C11.no-reentry", w.pkgFuncs("env"))
@@ -1249,6 +1363,9 @@ func resolveRet(v ssa.Value) ssa.Value {
 		}
 	}
 	if last != nil {
+		if last != v {
+			return resolveRet(last) // a named result assigned from a local copy: follow the copy too
+		}
 		return last
 	}
 	return v
@@ -1373,6 +1490,9 @@ func singleOutcomeRule(w *World, r *Report, e *Engine, rule string) {
 							}
 						}
 					}
+					if p, ok := s.val.(*ssa.Parameter); ok && !redeposit {
+						redeposit = receivedFromAtEverySite(w, e, p, field, 0)
+					}
 					r.check(redeposit, rule, fn, construct, s.pos, "re-deposit of the value just received from this channel", "a second sender on a future's outcome channel: the future gets two outcomes (derefs disagree, and the unguarded re-deposit of a reader can block forever)")
 				}
 			}
@@ -1387,6 +1507,53 @@ func singleOutcomeRule(w *World, r *Report, e *Engine, rule string) {
 		}
 	}
 	r.floor(rule, "sends on outcome channels", n, 4)
+}
+
+// receivedFromAtEverySite: the parameter of an unexported function receives, at every call site, the value just
+// received from the outcome channel field (a reader's re-deposit moved into a helper).
+func receivedFromAtEverySite(w *World, e *Engine, p *ssa.Parameter, field string, depth int) bool {
+	fn := p.Parent()
+	if depth > 2 || fn.Object() == nil || fn.Object().Exported() || e.escapedFn(fn) {
+		return false
+	}
+	args := w.callSiteArgs(p)
+	if len(args) == 0 {
+		return false
+	}
+	for _, a := range args {
+		switch v := a.(type) {
+		case *ssa.Extract:
+			sel, ok := v.Tuple.(*ssa.Select)
+			if !ok {
+				return false
+			}
+			k, hit := 0, false
+			for _, st := range sel.States {
+				if st.Dir != types.RecvOnly {
+					continue
+				}
+				if f2, ok := outcomeChanField(st.Chan); ok && f2 == field && v.Index == 2+k {
+					hit = true
+				}
+				k++
+			}
+			if !hit {
+				return false
+			}
+		case *ssa.UnOp:
+			f2, ok := outcomeChanField(v.X)
+			if v.Op != token.ARROW || !ok || f2 != field {
+				return false
+			}
+		case *ssa.Parameter:
+			if !receivedFromAtEverySite(w, e, v, field, depth+1) {
+				return false
+			}
+		default:
+			return false
+		}
+	}
+	return true
 }
 
 // blockReaches: there is a path of at least one edge from a to b (or a == b and same is set for distinct instructions).
